@@ -49,7 +49,7 @@ func script(seed int64, idx int) {
 	nSteps := 6 + rng.Intn(10)
 	for st := 0; st < nSteps; st++ {
 		switch x := rng.Intn(20); {
-		case x < 7: // new block with 1-3 transactions
+		case x < 7: // new block with 1-3 transactions (x == 7: staggered pattern below)
 			fresh := rng.Intn(3) == 0
 			n := 1 + rng.Intn(3)
 			w.Sim.Mutate("emit", func(s *alphsim.Sim) {
@@ -62,6 +62,56 @@ func script(seed int64, idx int) {
 					vlib.CCount("events_"+kind, 1)
 				}
 			})
+		case x == 7: // staggered confirmations inside one block, with a reorg in between
+			var blk *alphsim.Block
+			clLate := []uint8{2, 5, 10}[rng.Intn(3)]
+			w.Sim.Mutate("emit-staggered", func(s *alphsim.Sim) {
+				blk = w.NewBlock(s, false)
+				w.EmitTx(s, blk, "transfer", 0, false)
+				w.EmitTx(s, blk, []string{"transfer", "attest"}[rng.Intn(2)], clLate, false)
+				if rng.Intn(2) == 0 {
+					w.EmitTx(s, blk, "transfer", clLate+1, rng.Intn(2) == 0)
+				}
+			})
+			w.Tr(fmt.Sprintf("emit staggered: block %s height %d with consistency levels 0 and %d", blk.Hash[:8], blk.Height, clLate))
+			vlib.CCount("staggered_blocks", 1)
+			if !wait(3) {
+				break
+			}
+			reinclude := rng.Intn(2) == 0
+			w.Sim.Mutate("reorg-staggered", func(s *alphsim.Sim) {
+				s.SetMain(blk.Hash, false)
+				var nb *alphsim.Block
+				for tx, evs := range w.TxOf {
+					if len(evs) == 0 || evs[0].Block != blk {
+						continue
+					}
+					if !reinclude {
+						s.TxBlock[tx] = ""
+						continue
+					}
+					if nb == nil {
+						nb = s.AddBlock(fmt.Sprintf("%064x", rng.Uint64()), blk.Height, blk.TsMs+7, true)
+						w.Blocks = append(w.Blocks, nb)
+					}
+					var ne []*alphsim.Ev
+					for _, e := range s.TxEvents[tx] {
+						if e.Block == blk {
+							x := s.Emit(e.Contract, nb, tx, e.EvIndex, e.Fields, e.Intent, e.Note+"(re-included)")
+							if e.Contract == s.Core {
+								ne = append(ne, x)
+							}
+						}
+					}
+					w.TxOf[tx] = ne
+					s.TxBlock[tx] = nb.Hash
+				}
+			})
+			w.Tr(fmt.Sprintf("reorg: block %s orphaned after its first event was forwarded, reinclude=%v", blk.Hash[:8], reinclude))
+			vlib.CCount("reorgs", 1)
+			wait(2)
+			w.Sim.Mutate("advance", func(s *alphsim.Sim) { s.SetHeight(s.Height + int32(clLate) + 2) })
+			w.Tr(fmt.Sprintf("advance height by %d", int32(clLate)+2))
 		case x < 11:
 			k := []int32{0, 1, 2, 5, 10, 210, 300}[rng.Intn(7)]
 			w.Sim.Mutate("advance", func(s *alphsim.Sim) { s.SetHeight(s.Height + k) })
